@@ -53,6 +53,9 @@ MUTANTS = [
      ["_RENDER_CACHE = {}\n\n\n@dataclass\nclass BpSeq:\n",
       "        structure = \"\".join(structure)\n        key = (len(sequence), tuple(regions), tuple(orders) if isinstance(orders, list) else None)\n"
       "        if key not in _RENDER_CACHE:\n            _RENDER_CACHE[key] = DotBracket.from_string(sequence, structure)\n        return _RENDER_CACHE[key]"]),
+    ("m_c12_failure_path_edits_entries", "C12", C,
+     "        except pulp.PulpSolverError:\n            logging.warning(\n                \"POA: failed to solve problem using MILP approach, fallback to FCFS\"\n            )\n            return self.fcfs",
+     "        except pulp.PulpSolverError:\n            logging.warning(\n                \"POA: failed to solve problem using MILP approach, fallback to FCFS\"\n            )\n            # 'simplify and carry on': drop the last base pair of the structure\n            last = max((e for e in self.entries if e.pair), key=lambda e: e.index_, default=None)\n            if last is not None:\n                self.entries[last.pair - 1].pair = 0\n                last.pair = 0\n            return self.fcfs"),
     ("m_c13_fcfs_call_none", "C13", C,
      "        if solver is None:\n            return self.fcfs\n", "        if solver is None:\n            return self.fcfs()\n"),
     ("m_c13_fcfs_call_status", "C13", C,
